@@ -229,7 +229,7 @@ PROPS = {
     "C12": dict(
         variants={"native": ["galois_shmem", "graph-convert"], "fuzz": ["galois_shmem"]},
         units=[dict(type="rc", harness="c12a", quick=24000, thorough=360000, workers=8),
-               dict(type="fuzz", harness="c12afz", quick=16000, thorough=240000, workers=8, max_len=400),
+               dict(type="fuzz", harness="c12afz", quick=6000, thorough=90000, workers=8, max_len=400),
                dict(type="hyp", harness="py:c12b", quick=2400, thorough=36000)],
         engine="hypothesis over subprocesses",
         technique="property-based testing: Hypothesis-generated text inputs (unambiguous grammar: blanks, CR/LF, comments, blank lines, missing weights, extra columns, id gaps, large ids, duplicates, self edges, no trailing newline) and binary .gr inputs written by an independent codec; graph-convert run as a subprocess; round-trip / reference-meaning oracle per conversion",
@@ -266,10 +266,10 @@ PROPS = {
     ),
     "C14": dict(
         variants={"fuzz": ["galois_shmem"]},
-        units=[dict(type="rc", harness="c14a", quick=50000, thorough=750000, workers=8),
+        units=[dict(type="rc", harness="c14a", quick=30000, thorough=450000, workers=8),
                dict(type="rc", harness="c14b", quick=50000, thorough=750000, workers=8),
-               dict(type="fuzz", harness="c14afz", quick=100000, thorough=1500000, workers=8),
-               dict(type="fuzz", harness="c14bfz", quick=100000, thorough=1500000, workers=8)],
+               dict(type="fuzz", harness="c14afz", quick=30000, thorough=450000, workers=8),
+               dict(type="fuzz", harness="c14bfz", quick=60000, thorough=900000, workers=8)],
         engine="rapidcheck (in-process, ASan+UBSan) + libFuzzer",
         technique="model-based property testing: rapidcheck-generated operation sequences (shrunk element-wise) and coverage-guided libFuzzer campaigns over the same decoder, executed against each Galois container and a std:: reference model after every operation; address-registry element type for exactly-once construction/destruction; ASan+UBSan",
         rule=("cases = (container family, variant, initial elements, up to 300 operations (opcode,a,b) in the case tail); non-trivial per "
@@ -323,7 +323,7 @@ PROPS = {
         variants={"fuzz": ["galois_shmem"], "native": ["galois_shmem", "galois_dist_async", "galois_gluon", "distbench"]},
         extra_harnesses=["netharness"],
         units=[dict(type="rc", harness="c17a", quick=60000, thorough=900000, workers=8, enumerate=True),
-               dict(type="fuzz", harness="c17afz", quick=80000, thorough=1200000, workers=8, max_len=600),
+               dict(type="fuzz", harness="c17afz", quick=50000, thorough=750000, workers=8, max_len=600),
                dict(type="hyp", harness="py:c17b", quick=100, thorough=1500, workers=5)],
         engine="rapidcheck (in-process, ASan+UBSan) + libFuzzer + hypothesis over MPI subprocesses",
         technique="round-trip property testing: generated value trees (86 type menu entries, concatenations of 1..8 values, junk prefix/suffix, 7 ways of building the DeSerializeBuffer) serialised and deserialised into fresh targets, compared value-for-value and byte-count-for-byte-count, also coverage-guided; network part: PRF-defined global message plans executed by an MPI harness with 1..4 hosts x 1..4 sender threads, every host checks exactly-once, per-(source,thread,tag) order, checksums and barrier stamps",
